@@ -298,7 +298,23 @@ fn not_a_word(u: &mut crate::gen::U) -> String {
     for _ in 0..20 {
         let base = bip39::word(u.below(2048) as u16).to_string();
         let mut chars: Vec<char> = base.chars().collect();
-        let cand = match u.below(16) {
+        let cand = match u.below(17) {
+            16 => {
+                // a list word with NUL or other invisible padding attached (a fixed-width key would swallow it)
+                let pad = ["\0", "\0\0", "\0\0\0\0", "\u{7f}", "\u{1}", "\u{200c}"][u.below(6)];
+                match u.below(3) {
+                    0 => format!("{base}{pad}"),
+                    1 => format!("{pad}{base}"),
+                    _ => {
+                        // pad a short word to exactly eight bytes
+                        let mut w = base.clone();
+                        while w.len() < 8 {
+                            w.push('\0');
+                        }
+                        if w == base { format!("{base}\0") } else { w }
+                    }
+                }
+            }
             14 | 15 => {
                 // letter-case variants of a list word and characters that case-fold onto ASCII letters
                 match u.below(5) {
